@@ -139,6 +139,8 @@ func collectDeclDependencies(d Decl) []string {
 		}
 	case *AliasDecl:
 		collectTypeRefs(d.Type, add)
+	case *ConstAssertDecl:
+		collectExprDeps(d.Condition, nil, add)
 	}
 	return refs
 }
@@ -276,6 +278,8 @@ func collectStmtDeps(s Stmt, locals map[string]bool, add func(string)) {
 	case *ExprStmt:
 		collectExprDeps(s.Expr, locals, add)
 	case *BreakIfStmt:
+		collectExprDeps(s.Condition, locals, add)
+	case *ConstAssertDecl:
 		collectExprDeps(s.Condition, locals, add)
 	}
 }
